@@ -37,6 +37,66 @@ type httpCtrl struct {
 	// v1Writes: writes go through the v1 routes whenever v1 can express them (no force on creates, no
 	// atEffectiveDate on reverts, no account metadata / runtime / schema version); reads stay on v2
 	v1Writes bool
+	// writes counts the writes issued; every third one without idempotency key, dry run or schema version travels as a
+	// one-element bulk (application/json and JSON stream in turn) instead of its own route
+	writes int
+}
+
+// viaBulk says whether this write goes through POST /_bulk, and in which wire form.
+func (h *httpCtrl) viaBulk(dry bool, ik, schema string) (bool, bool) {
+	h.writes++
+	if dry || ik != "" || schema != "" || h.writes%3 != 0 {
+		return false, false
+	}
+	return true, h.writes%6 == 0
+}
+
+// bulkOne sends one element as a bulk and returns its result.
+func (h *httpCtrl) bulkOne(action string, data any, stream bool) (json.RawMessage, error) {
+	el := map[string]any{"action": action, "data": data}
+	var body []byte
+	hd := map[string]string{}
+	if stream {
+		body = append(hJSON(el), '\n')
+		hd["Content-Type"] = "application/vnd.formance.ledger.api.v2.bulk+json-stream"
+	} else {
+		body = hJSON([]any{el})
+	}
+	rec := h.do("POST", "/_bulk", nil, hd, body)
+	var doc struct {
+		Data []struct {
+			ErrorCode        string          `json:"errorCode"`
+			ErrorDescription string          `json:"errorDescription"`
+			ResponseType     string          `json:"responseType"`
+			Data             json.RawMessage `json:"data"`
+		} `json:"data"`
+		ErrorCode    string `json:"errorCode"`
+		ErrorMessage string `json:"errorMessage"`
+	}
+	if err := json.Unmarshal(rec.Body.Bytes(), &doc); err != nil || len(doc.Data) != 1 {
+		if rec.Code/100 != 2 {
+			return nil, h.fail(rec)
+		}
+		return nil, fmt.Errorf("POST _bulk with one %s element: HTTP %d with %d results (%v): %s", action, rec.Code, len(doc.Data), err, hCut(rec.Body.String(), 300))
+	}
+	r := doc.Data[0]
+	if r.ResponseType == "ERROR" {
+		status := http.StatusBadRequest
+		if r.ErrorCode == "NOT_FOUND" {
+			status = http.StatusNotFound
+		}
+		fake := httptest.NewRecorder()
+		fake.Code = status
+		fake.Body.Write(hJSON(map[string]string{"errorCode": r.ErrorCode, "errorMessage": r.ErrorDescription}))
+		return nil, h.fail(fake)
+	}
+	if rec.Code/100 != 2 {
+		return nil, fmt.Errorf("POST _bulk answered HTTP %d although its only element succeeded: %s", rec.Code, hCut(rec.Body.String(), 300))
+	}
+	if r.ResponseType != action {
+		return nil, fmt.Errorf("POST _bulk: the result of a %s element has responseType %q", action, r.ResponseType)
+	}
+	return r.Data, nil
 }
 
 type txRequestKey struct{}
@@ -214,7 +274,17 @@ func (h *httpCtrl) CreateTransaction(ctx context.Context, p ledgercontroller.Par
 	}
 	var tx *ledger.Transaction
 	var rec *httptest.ResponseRecorder
-	if _, forced := body["force"]; h.v1Writes && !forced && p.Input.AccountMetadata == nil && p.Input.Runtime == "" && p.SchemaVersion == "" && p.Input.Template == "" {
+	if bulk, stream := h.viaBulk(p.DryRun, p.IdempotencyKey, p.SchemaVersion); bulk && p.Input.Template == "" {
+		raw, err := h.bulkOne("CREATE_TRANSACTION", body, stream)
+		if err != nil {
+			return nil, nil, false, err
+		}
+		tx = &ledger.Transaction{}
+		if err := json.Unmarshal(raw, tx); err != nil || tx.ID == nil {
+			return nil, nil, false, fmt.Errorf("POST _bulk: undecodable transaction in the result (%v): %s", err, hCut(string(raw), 300))
+		}
+		rec = httptest.NewRecorder()
+	} else if _, forced := body["force"]; h.v1Writes && !forced && p.Input.AccountMetadata == nil && p.Input.Runtime == "" && p.SchemaVersion == "" && p.Input.Template == "" {
 		q, hd := writeParamsV1(p.DryRun, p.IdempotencyKey)
 		rec = h.doOn("/", "POST", "/transactions", q, hd, hJSON(body))
 		if rec.Code/100 != 2 {
@@ -276,7 +346,21 @@ func (h *httpCtrl) RevertTransaction(ctx context.Context, p ledgercontroller.Par
 	}
 	var tx *ledger.Transaction
 	var rec *httptest.ResponseRecorder
-	if h.v1Writes && !p.Input.AtEffectiveDate && len(p.Input.Metadata) == 0 && p.SchemaVersion == "" {
+	if bulk, stream := h.viaBulk(p.DryRun, p.IdempotencyKey, p.SchemaVersion); bulk {
+		data := map[string]any{"id": p.Input.TransactionID, "force": p.Input.Force, "atEffectiveDate": p.Input.AtEffectiveDate}
+		if p.Input.Metadata != nil {
+			data["metadata"] = p.Input.Metadata
+		}
+		raw, err := h.bulkOne("REVERT_TRANSACTION", data, stream)
+		if err != nil {
+			return nil, nil, false, err
+		}
+		tx = &ledger.Transaction{}
+		if err := json.Unmarshal(raw, tx); err != nil || tx.ID == nil {
+			return nil, nil, false, fmt.Errorf("POST _bulk: undecodable revert transaction in the result (%v): %s", err, hCut(string(raw), 300))
+		}
+		rec = httptest.NewRecorder()
+	} else if h.v1Writes && !p.Input.AtEffectiveDate && len(p.Input.Metadata) == 0 && p.SchemaVersion == "" {
 		q1, hd1 := writeParamsV1(p.DryRun, p.IdempotencyKey)
 		if p.Input.Force {
 			q1.Set("disableChecks", "true")
@@ -343,19 +427,39 @@ func (h *httpCtrl) metaWrite(method, path string, dry bool, ik, schema string, b
 	return log, hit, err
 }
 
+func (h *httpCtrl) metaBulk(action string, data map[string]any, stream bool) (*ledger.Log, bool, error) {
+	if _, err := h.bulkOne(action, data, stream); err != nil {
+		return nil, false, err
+	}
+	log, err := h.lastLog("", false)
+	return log, false, err
+}
+
 func (h *httpCtrl) SaveTransactionMetadata(_ context.Context, p ledgercontroller.Parameters[ledgercontroller.SaveTransactionMetadata]) (*ledger.Log, bool, error) {
+	if bulk, stream := h.viaBulk(p.DryRun, p.IdempotencyKey, p.SchemaVersion); bulk {
+		return h.metaBulk("ADD_METADATA", map[string]any{"targetType": "TRANSACTION", "targetId": p.Input.TransactionID, "metadata": orEmpty(p.Input.Metadata)}, stream)
+	}
 	return h.metaWrite("POST", fmt.Sprintf("/transactions/%d/metadata", p.Input.TransactionID), p.DryRun, p.IdempotencyKey, p.SchemaVersion, hJSON(orEmpty(p.Input.Metadata)))
 }
 
 func (h *httpCtrl) SaveAccountMetadata(_ context.Context, p ledgercontroller.Parameters[ledgercontroller.SaveAccountMetadata]) (*ledger.Log, bool, error) {
+	if bulk, stream := h.viaBulk(p.DryRun, p.IdempotencyKey, p.SchemaVersion); bulk {
+		return h.metaBulk("ADD_METADATA", map[string]any{"targetType": "ACCOUNT", "targetId": p.Input.Address, "metadata": orEmpty(p.Input.Metadata)}, stream)
+	}
 	return h.metaWrite("POST", "/accounts/"+url.PathEscape(p.Input.Address)+"/metadata", p.DryRun, p.IdempotencyKey, p.SchemaVersion, hJSON(orEmpty(p.Input.Metadata)))
 }
 
 func (h *httpCtrl) DeleteTransactionMetadata(_ context.Context, p ledgercontroller.Parameters[ledgercontroller.DeleteTransactionMetadata]) (*ledger.Log, bool, error) {
+	if bulk, stream := h.viaBulk(p.DryRun, p.IdempotencyKey, p.SchemaVersion); bulk {
+		return h.metaBulk("DELETE_METADATA", map[string]any{"targetType": "TRANSACTION", "targetId": p.Input.TransactionID, "key": p.Input.Key}, stream)
+	}
 	return h.metaWrite("DELETE", fmt.Sprintf("/transactions/%d/metadata/%s", p.Input.TransactionID, url.PathEscape(p.Input.Key)), p.DryRun, p.IdempotencyKey, p.SchemaVersion, nil)
 }
 
 func (h *httpCtrl) DeleteAccountMetadata(_ context.Context, p ledgercontroller.Parameters[ledgercontroller.DeleteAccountMetadata]) (*ledger.Log, bool, error) {
+	if bulk, stream := h.viaBulk(p.DryRun, p.IdempotencyKey, p.SchemaVersion); bulk {
+		return h.metaBulk("DELETE_METADATA", map[string]any{"targetType": "ACCOUNT", "targetId": p.Input.Address, "key": p.Input.Key}, stream)
+	}
 	return h.metaWrite("DELETE", "/accounts/"+url.PathEscape(p.Input.Address)+"/metadata/"+url.PathEscape(p.Input.Key), p.DryRun, p.IdempotencyKey, p.SchemaVersion, nil)
 }
 
